@@ -45,10 +45,6 @@ Re-run: `tools/run_all_seeds.sh` (scratch worktree of /repo HEAD, nothing in /re
     f.write('''
 ## Not reported by any check (and why)
 
-* **C28-noncemask-empty-seal** -- `xorNonceAEAD.Seal` (cipher_suites.go) is not under contract: a contract "the nonce
-  mask is restored" was written, but it needs the precondition that the output buffer does not alias the array-typed
-  field `nonceMask`, which the contract language cannot state for an array field, and the XOR loop invariants did not
-  discharge reliably; it was dropped rather than kept flaky.
 * **C29-working-id-by-name** -- needs "no entry of the shuffled list is lost by the move-to-front" (a permutation
   argument over a struct slice with `append`); the clause is true on the unchanged tree but no solver proved it within
   4 minutes, so it is not claimed. `keep_all` (list untouched until the working id is found) is proved.
